@@ -775,6 +775,7 @@ qb_loop_signal_del(qb_loop_t * lp, qb_loop_signal_handle handle)
 	struct qb_loop *l = lp;
 	struct qb_loop_item *item;
 	struct qb_loop_item *next;
+	int32_t p;
 
 	if (l == NULL) {
 		l = qb_loop_default_get();
@@ -786,29 +787,33 @@ qb_loop_signal_del(qb_loop_t * lp, qb_loop_signal_handle handle)
 
 	/*
 	 * every delivery of the signal that is still waiting to be
-	 * dispatched has its own clone, get rid of all of them
+	 * dispatched has its own clone, get rid of all of them. They sit
+	 * at the priority the signal had when it arrived, which
+	 * qb_loop_signal_mod() may have changed since.
 	 */
-	qb_list_for_each_entry_safe(item, next, &l->level[sig->p].wait_head, list) {
-		if (item->type != QB_LOOP_SIG) {
-			continue;
+	for (p = QB_LOOP_LOW; p <= QB_LOOP_HIGH; p++) {
+		qb_list_for_each_entry_safe(item, next, &l->level[p].wait_head, list) {
+			if (item->type != QB_LOOP_SIG) {
+				continue;
+			}
+			sig_clone = (struct qb_loop_sig *)item;
+			if (sig_clone->cloned_from == sig) {
+				qb_util_log(LOG_TRACE, "deleting sig in WAITLIST");
+				qb_list_del(&sig_clone->item.list);
+				free(sig_clone);
+			}
 		}
-		sig_clone = (struct qb_loop_sig *)item;
-		if (sig_clone->cloned_from == sig) {
-			qb_util_log(LOG_TRACE, "deleting sig in WAITLIST");
-			qb_list_del(&sig_clone->item.list);
-			free(sig_clone);
-		}
-	}
 
-	qb_list_for_each_entry_safe(item, next, &l->level[sig->p].job_head, list) {
-		if (item->type != QB_LOOP_SIG) {
-			continue;
-		}
-		sig_clone = (struct qb_loop_sig *)item;
-		if (sig_clone->cloned_from == sig) {
-			qb_loop_level_item_del(&l->level[sig->p], item);
-			qb_util_log(LOG_TRACE, "deleting sig in JOBLIST");
-			free(sig_clone);
+		qb_list_for_each_entry_safe(item, next, &l->level[p].job_head, list) {
+			if (item->type != QB_LOOP_SIG) {
+				continue;
+			}
+			sig_clone = (struct qb_loop_sig *)item;
+			if (sig_clone->cloned_from == sig) {
+				qb_loop_level_item_del(&l->level[p], item);
+				qb_util_log(LOG_TRACE, "deleting sig in JOBLIST");
+				free(sig_clone);
+			}
 		}
 	}
 
